@@ -4,6 +4,7 @@ package main
 
 import (
 	"fmt"
+	"go/constant"
 	"go/token"
 	"go/types"
 	"strings"
@@ -83,6 +84,14 @@ func nilTestsOf(fn *ssa.Function) []nilTest {
 		}
 		iff, ok := b.Instrs[len(b.Instrs)-1].(*ssa.If)
 		if !ok {
+			continue
+		}
+		if arg, nn, ok := nilPredicateTest(iff.Cond); ok {
+			if ap, ok := accessPath(arg); ok {
+				out = append(out, nilTest{ap, arg, b, nn})
+			} else {
+				out = append(out, nilTest{"", arg, b, nn})
+			}
 			continue
 		}
 		bin, ok := iff.Cond.(*ssa.BinOp)
@@ -557,4 +566,112 @@ func harmlessOnError(call *ssa.Call) (bool, string) {
 		}
 	}
 	return true, "on error the media type is the empty string, which selects the default branch; the value is only compared with constants"
+}
+
+// nilPredicateTest recognises a branch on a small module predicate that
+// answers a constant for a nil argument (`func (s *Status) isSuccess() bool {
+// return s == nil || … }`): on the other answer the argument is non-nil.
+// It returns the argument and the successor index on which it is non-nil.
+func nilPredicateTest(cond ssa.Value) (ssa.Value, int, bool) {
+	neg := false
+	if u, ok := cond.(*ssa.UnOp); ok && u.Op == token.NOT {
+		neg = true
+		cond = u.X
+	}
+	call, ok := cond.(*ssa.Call)
+	if !ok {
+		return nil, 0, false
+	}
+	callee := call.Common().StaticCallee()
+	if callee == nil || len(callee.Blocks) == 0 {
+		return nil, 0, false
+	}
+	for i, a := range call.Common().Args {
+		if i >= len(callee.Params) {
+			break
+		}
+		if _, isPtr := a.Type().Underlying().(*types.Pointer); !isPtr {
+			continue
+		}
+		c, ok := nilAnswerOf(callee, i)
+		if !ok {
+			continue
+		}
+		// the call answers c for nil: non-nil where the answer is !c
+		nn := 0 // successor 0 = condition true
+		if c != neg {
+			nn = 1
+		}
+		return a, nn, true
+	}
+	return nil, 0, false
+}
+
+var nilAnswerCache = map[*ssa.Parameter]int{} // 0 unknown/none, 1 false, 2 true
+var nilAnswerBusy = map[*ssa.Function]bool{}
+
+// nilAnswerOf: the constant a one-result boolean function returns on every
+// path on which its i-th (pointer) parameter is nil, if there is one.
+func nilAnswerOf(fn *ssa.Function, i int) (bool, bool) {
+	prm := fn.Params[i]
+	if v, ok := nilAnswerCache[prm]; ok {
+		return v == 2, v != 0
+	}
+	res := fn.Signature.Results()
+	if res.Len() != 1 || nilAnswerBusy[fn] {
+		return false, false
+	}
+	if bt, ok := res.At(0).Type().Underlying().(*types.Basic); !ok || bt.Kind() != types.Bool {
+		return false, false
+	}
+	nilAnswerBusy[fn] = true
+	defer delete(nilAnswerBusy, fn)
+	tests := nilTestsOf(fn)
+	seen, val, good := false, false, true
+	note := func(v ssa.Value) {
+		k, ok := v.(*ssa.Const)
+		if !ok || k.Value == nil || k.Value.Kind() != constant.Bool {
+			good = false
+			return
+		}
+		c := constant.BoolVal(k.Value)
+		if seen && c != val {
+			good = false
+		}
+		seen, val = true, c
+	}
+	for _, b := range fn.Blocks {
+		if fn.Recover != nil && b == fn.Recover {
+			continue
+		}
+		for _, in := range b.Instrs {
+			ret, ok := in.(*ssa.Return)
+			if !ok || len(ret.Results) != 1 {
+				continue
+			}
+			if guardedNonNil(tests, prm, b) {
+				continue
+			}
+			if phi, ok := ret.Results[0].(*ssa.Phi); ok && phi.Block() == b {
+				for j, e := range phi.Edges {
+					if guardedNonNil(tests, prm, b.Preds[j]) {
+						continue
+					}
+					note(e)
+				}
+				continue
+			}
+			note(ret.Results[0])
+		}
+	}
+	if !good || !seen {
+		nilAnswerCache[prm] = 0
+		return false, false
+	}
+	if val {
+		nilAnswerCache[prm] = 2
+	} else {
+		nilAnswerCache[prm] = 1
+	}
+	return val, true
 }
